@@ -135,6 +135,18 @@ Proof.
   pose proof (flat_targets_len ps). pose proof (walk_weight_nil st). lia.
 Qed.
 
+(* ---------------------------------------------------------------- the enum ref of a field (with its guard) *)
+Lemma enum_ref_inv st e st1 :
+  enum_ref st e = Ok st1 ->
+  (st1 = st /\ exists a b c d g, lookup st (enum_key e) = Some (Linked (REnum a b c d g))) \/
+  (lookup st (enum_key e) = None /\ exists r, build_enum e = Ok r /\ st1 = (enum_key e, Linked r) :: st).
+Proof.
+  unfold enum_ref. destruct (lookup st (enum_key e)) as [[|[| |a b c d g]]|] eqn:El; try discriminate.
+  - intros H; inversion H; subst. left. split; [reflexivity|eauto 10].
+  - destruct (build_enum e) as [r| | |]; cbn [obind]; try discriminate.
+    intros H; inversion H; subst. right. split; [reflexivity|eauto].
+Qed.
+
 (* ---------------------------------------------------------------- well-formedness needed for totality *)
 Section Totality.
 Variable D : desc.
@@ -304,6 +316,24 @@ Proof.
   destruct (negb (has_suffix s_UNSPECIFIED first)); [exact I|]. eauto 10.
 Qed.
 
+(* the enum ref of a field: after the guard the entry is a linked enum schema, whatever was there *)
+Lemma enum_ref_shape st e :
+  enum_nonempty e ->
+  match enum_ref st e with
+  | Ok st1 => ext st st1 /\ (st1 = st \/ exists r, st1 = (enum_key e, Linked r) :: st /\ lookup st (enum_key e) = None) /\
+              exists a b c d g, lookup st1 (enum_key e) = Some (Linked (REnum a b c d g))
+  | Err _ => True
+  | _ => False
+  end.
+Proof.
+  intros Hne. unfold enum_ref.
+  destruct (lookup st (enum_key e)) as [[|[| |a b c d g]]|] eqn:El; try exact I.
+  - split; [apply ext_refl|]. split; [left; reflexivity|]. rewrite El. eauto 10.
+  - pose proof (build_enum_shape e Hne) as Hs. destruct (build_enum e) as [r| | |]; cbn [obind]; try exact Hs.
+    destruct Hs as (a & b & c & d & g & ->). split; [apply ext_cons|]. split; [right; eauto|].
+    rewrite lookup_cons, ref_eqb_refl. eauto 10.
+Qed.
+
 Lemma build_enum_field_ok st f x :
   Inv st -> Pf st (build_enum_field D st f x).
 Proof.
@@ -312,28 +342,12 @@ Proof.
   destruct (find_enum D full) as [e|] eqn:Ef; [|exact I].
   assert (He : In e (d_enums D)) by (eapply find_enum_In; eauto).
   assert (Hne : enum_nonempty e) by (apply Hwf; exact He).
-  (* the state after the enum has been looked up or built *)
-  assert (Hst1 : match (match lookup st (enum_key e) with
-                        | Some _ => Ok st
-                        | None => obind (build_enum e) (fun r => Ok ((enum_key e, Linked r) :: st))
-                        end) with
-                 | Ok st1 => Inv st1 /\ ext st st1 /\
-                             exists a b c d g, lookup st1 (enum_key e) = Some (Linked (REnum a b c d g))
-                 | Err _ => True
-                 | _ => False
-                 end).
-  { destruct (lookup st (enum_key e)) as [en|] eqn:El.
-    - split; [exact HI|]. split; [apply ext_refl|].
-      specialize (HI e He). unfold enum_entry_ok in HI. rewrite El in HI.
-      destruct en as [|[| |a b c d g]]; try contradiction. eauto 10.
-    - pose proof (build_enum_shape e Hne) as Hs. destruct (build_enum e) as [r| | |]; cbn [obind]; try exact Hs.
-      destruct Hs as (a & b & c & d & g & ->). split; [apply Inv_cons_enum; eauto 10|].
-      split; [apply ext_cons|]. rewrite lookup_cons, ref_eqb_refl. eauto 10. }
-  destruct (match lookup st (enum_key e) with
-            | Some _ => Ok st
-            | None => obind (build_enum e) (fun r => Ok ((enum_key e, Linked r) :: st))
-            end) as [st1| | |]; cbn [obind]; try exact Hst1.
-  destruct Hst1 as (HI1 & He1 & a & b & c & d & g & Hl).
+  pose proof (enum_ref_shape st e Hne) as Hst1.
+  destruct (enum_ref st e) as [st1| | |]; cbn [obind]; try exact Hst1.
+  destruct Hst1 as (He1 & Hor & a & b & c & d & g & Hl).
+  assert (HI1 : Inv st1).
+  { destruct Hor as [->|(r & -> & Hn)]; [exact HI|].
+    rewrite lookup_cons, ref_eqb_refl in Hl. inversion Hl; subst r. apply Inv_cons_enum; eauto 10. }
   rewrite Hl.
   destruct (x_vty x); cbn [obind Pf Pg fst]; try (split; assumption).
   (* VEnum: the type assertion succeeds *)
@@ -356,7 +370,8 @@ Proof.
   - destruct (has_prefix s_google_protobuf full); [exact I|].
     destruct (find_msg D full) as [m|] eqn:Ef; [|exact I].
     assert (Hm : In m (d_msgs D)) by (eapply find_msg_In; eauto).
-    destruct (lookup st (msg_key m)) as [en|] eqn:El; cbn [obind].
+    destruct (lookup st (msg_key m)) as [en|] eqn:El; [destruct (is_enum_entry en)|]; cbn [obind].
+    + exact I.
     + split; [exact HI|apply ext_refl].
     + assert (Hk : has_key st (msg_key m) = false) by (unfold has_key; rewrite El; reflexivity).
       assert (HI' : Inv ((msg_key m, Placeholder) :: st))
